@@ -246,7 +246,9 @@ func judgeMSStream(cfg string, hard *ref.Problem, costOf func(uint32) int, items
 		out.fail("C20", "not-closed-at-return", "[%s] result channel still open when the call returned", cfg)
 	}
 	if len(items) == 0 {
-		out.fail("C20", "empty-stream", "[%s] nothing delivered before close", cfg)
+		if ret.Status == solver.Sat {
+			out.fail("C20", "empty-stream", "[%s] the call returned a Sat result but nothing was delivered before close", cfg)
+		}
 		return
 	}
 	if len(items) >= 3 {
